@@ -120,11 +120,11 @@ def c10(chk, opts):
     r, events, bad = validate_independent(chk, "TraceNotation", trace, "TraceNotation(C10)", cfg="TraceNotationC10.cfg", heap="10g", timeout=3000)
     nonempty = sum(1 for e in events if '"rng":[[' in e)
     shows = sum(1 for e in events if '"shows":[[' in e)
-    if nonempty < 1000 or shows < 100:
-        raise ToolError("vacuity: only %d non-empty parsed ranges, %d enumerated" % (nonempty, shows))
     for i in bad:
         ev = json.loads(events[i - 1])
         chk.violation("a parsed value holds an impossible combo or a weight outside [0,1]: " + _brief(ev), {"op": ev["op"], "text": _text(ev)[:200]}, {"gen": ["c10"], "event": ev})
+    if not chk.violations and (nonempty < 1000 or shows < 100):
+        raise ToolError("vacuity: only %d non-empty parsed ranges, %d enumerated" % (nonempty, shows))
     for i in (7, len(events) // 2, len(events) - 40):
         chk.sample(_brief(json.loads(events[i])))
     chk.exhaustive = False
